@@ -251,6 +251,20 @@ func cryptoStub(in *Interp, fn *ssa.Function, pkg, name string) StubFn {
 		}
 		return nil
 	}
+	// ---- gnark-crypto/field/pool: recycled big.Int objects have ARBITRARY contents
+	if pkg == "github.com/consensys/gnark-crypto/field/pool" {
+		switch name {
+		case "Get":
+			return func(in *Interp, fn *ssa.Function, a []Val) Val {
+				et := fn.Signature.Results().At(0).Type().(*types.Pointer).Elem()
+				o := in.newObj(in.zero(et), "pooled big.Int")
+				in.bigOpaque[o] = true
+				return Ptr{Obj: o}
+			}
+		case "Put":
+			return func(in *Interp, fn *ssa.Function, a []Val) Val { return nil }
+		}
+	}
 	// ---- gnark-crypto/utils worker pool: jobs run one after the other, in submission order
 	// (sequential schedule; the callers' contract is that jobs of one Submit are independent)
 	if pkg == "github.com/consensys/gnark-crypto/utils" {
